@@ -1,8 +1,8 @@
 #!/bin/bash
-# usage: confirm_seed.sh <property number e.g. 07> <patch number>
+# usage: confirm_seed.sh <property number e.g. 07> <patch number> [round]
 # Confirms in the scratch worktree /tmp/wt_c<NN>: suite passes with the patch, demo fails with it, demo passes without.
-NN=$1; K=$2
-WT=/tmp/wt_c$NN; SD=/tmp/seed_c$NN
+NN=$1; K=$2; R=$3   # R: round ("" or "2")
+WT=/tmp/wt${R}_c$NN; SD=/tmp/seed${R}_c$NN
 LOG=$SD/confirm$K.log
 cd $WT || exit 2
 git checkout -q -- . ; git clean -fdq tests/
